@@ -660,3 +660,201 @@ def shortest_accepted(d: DFA) -> Optional[List[int]]:
                 prev[t] = (s, c)
                 q.append(t)
     return None
+
+
+# ------------------------------------------------------------------------------------------------------------------
+# exponential ambiguity (catastrophic backtracking): two different runs of the NFA over the same word from a state
+# back to itself (EDA, Weber & Seidl 1991).  Runs are sequences of symbol *and* epsilon transitions, so `(a*)*`
+# and `(a+)+` (same positions, different bracketing) count; epsilon cycles are not followed (the matcher refuses
+# empty iterations).
+# ------------------------------------------------------------------------------------------------------------------
+def exponential_ambiguity(pattern: str, flags: Sequence[str] | int) -> Optional[str]:
+    alpha = Alphabet.for_patterns([pattern], flags)
+    sub = parse(pattern, flags_value(flags) if not isinstance(flags, int) else flags)
+    items = _strip_assertions(list(sub))
+    b = _PathBuilder(alpha)
+    start, end = b.build(items)
+    n = b.nfa
+    # symbol-source states and epsilon-path multiplicities (capped at 2) between a state and the sources it can reach
+    sources = [q for q in range(len(n.trans)) if n.trans[q]]
+
+    def eps_paths(q0: int) -> Dict[int, int]:
+        out: Dict[int, int] = {}
+        stack = [(q0, frozenset([q0]))]
+        steps = 0
+        while stack:
+            q, seen = stack.pop()
+            steps += 1
+            if steps > 200000:
+                raise AnalysisError("epsilon structure of the token regex too large for the ambiguity analysis")
+            if n.trans[q]:
+                out[q] = min(2, out.get(q, 0) + 1)
+            for r in n.eps[q]:
+                if r not in seen:
+                    stack.append((r, seen | {r}))
+        return out
+
+    reach_cache: Dict[int, Dict[int, int]] = {}
+    # edges of the epsilon-free multigraph between sources: src -(syms, mult)-> src2
+    edges: Dict[int, List[Tuple[FrozenSet[int], int, int]]] = {}
+    for q in sources:
+        lst = []
+        for syms, r in n.trans[q]:
+            if r not in reach_cache:
+                reach_cache[r] = eps_paths(r)
+            for r2, mult in reach_cache[r].items():
+                lst.append((syms, r2, mult))
+        edges[q] = lst
+    init = eps_paths(start)
+    reachable = set()
+    todo = list(init)
+    while todo:
+        q = todo.pop()
+        if q in reachable:
+            continue
+        reachable.add(q)
+        todo.extend(r2 for _, r2, _ in edges.get(q, []))
+    # product graph on reachable sources
+    from collections import defaultdict
+    padj: Dict[Tuple[int, int], List[Tuple[Tuple[int, int], bool]]] = defaultdict(list)
+    nodes = set()
+    work = [(q, q) for q in reachable]
+    while work:
+        pq = work.pop()
+        if pq in nodes:
+            continue
+        nodes.add(pq)
+        p, q = pq
+        for i, (s1, p2, m1) in enumerate(edges.get(p, [])):
+            for j, (s2, q2, m2) in enumerate(edges.get(q, [])):
+                if not (s1 & s2):
+                    continue
+                if p == q and j < i:
+                    continue
+                divergent = False
+                if p == q:
+                    if i == j:
+                        divergent = m1 >= 2  # two different epsilon routes after the same symbol transition
+                    else:
+                        divergent = True     # two different transitions of the same state on a common symbol
+                tgt = (p2, q2) if p2 <= q2 else (q2, p2)
+                padj[pq].append((tgt, divergent or p2 != q2 and p == q))
+                if tgt not in nodes:
+                    work.append(tgt)
+    # Tarjan SCC (iterative)
+    index: Dict[Tuple[int, int], int] = {}
+    low: Dict[Tuple[int, int], int] = {}
+    comp: Dict[Tuple[int, int], int] = {}
+    onstack = set()
+    st: List[Tuple[int, int]] = []
+    counter = [0]
+    ncomp = [0]
+    for root in nodes:
+        if root in index:
+            continue
+        call = [(root, 0)]
+        while call:
+            v, i = call.pop()
+            if i == 0:
+                index[v] = low[v] = counter[0]
+                counter[0] += 1
+                st.append(v)
+                onstack.add(v)
+            recurse = False
+            adj = padj.get(v, [])
+            while i < len(adj):
+                w = adj[i][0]
+                i += 1
+                if w not in index:
+                    call.append((v, i))
+                    call.append((w, 0))
+                    recurse = True
+                    break
+                if w in onstack:
+                    low[v] = min(low[v], index[w])
+            if recurse:
+                continue
+            if low[v] == index[v]:
+                while True:
+                    w = st.pop()
+                    onstack.discard(w)
+                    comp[w] = ncomp[0]
+                    if w == v:
+                        break
+                ncomp[0] += 1
+            if call:
+                u = call[-1][0]
+                low[u] = min(low[u], low[v])
+    members: Dict[int, List[Tuple[int, int]]] = defaultdict(list)
+    for v, c in comp.items():
+        members[c].append(v)
+    for c, vs in members.items():
+        diag = [v for v in vs if v[0] == v[1]]
+        if not diag:
+            continue
+        cyclic = len(vs) > 1 or any(w == v for v in vs for w, _ in padj.get(v, []))
+        if not cyclic:
+            continue
+        off = any(v[0] != v[1] for v in vs)
+        div = any(d and comp.get(w) == c for v in vs for w, d in padj.get(v, []))
+        if off or div:
+            q = diag[0][0]
+            syms = sorted({s for s_, _, _ in edges.get(q, []) for s in s_})[:1]
+            ch = alpha.text(syms) if syms else "?"
+            return (f"two different ways to match the same text loop through the same point of the pattern (around a character like {ch!r}): "
+                    "a failing match explores exponentially many of them")
+    return None
+
+
+class _PathBuilder(Builder):
+    """Thompson construction in which an epsilon cycle exists only where a loop body can be traversed without
+    consuming (an empty iteration): loops get no shared entry/exit node."""
+
+    def item(self, op, av) -> Tuple[int, int]:
+        if op in (sre_c.MAX_REPEAT, sre_c.MIN_REPEAT):
+            lo, hi, p = av
+            n = self.nfa
+            a = n.new()
+            cur = a
+            for _ in range(lo):
+                x, y = self.build(p)
+                n.add_eps(cur, x)
+                cur = y
+            end = n.new()
+            if hi == MAXREPEAT:
+                x, y = self.build(p)
+                n.add_eps(cur, x)    # enter the loop body
+                n.add_eps(cur, end)  # or skip it
+                n.add_eps(y, x)      # iterate again
+                n.add_eps(y, end)    # or leave
+                return a, end
+            n.add_eps(cur, end)
+            if hi - lo > 2000:
+                raise AnalysisError("bounded repeat too large for the automaton construction")
+            for _ in range(hi - lo):
+                x, y = self.build(p)
+                n.add_eps(cur, x)
+                n.add_eps(y, end)
+                cur = y
+            return a, end
+        if op is getattr(sre_c, "POSSESSIVE_REPEAT", None) or op is getattr(sre_c, "ATOMIC_GROUP", None):
+            return super().item(op, av)
+        return super().item(op, av)
+
+
+def _strip_assertions(items: list) -> list:
+    """Look-around assertions do not consume: for the ambiguity analysis they are dropped (over-approximation of the paths)."""
+    out = []
+    for op, av in items:
+        if op in (sre_c.ASSERT, sre_c.ASSERT_NOT, sre_c.AT):
+            continue
+        if op is sre_c.SUBPATTERN:
+            g, a, d, p = av
+            out.append((op, (g, a, d, _strip_assertions(list(p)))))
+        elif op is sre_c.BRANCH:
+            out.append((op, (av[0], [_strip_assertions(list(alt)) for alt in av[1]])))
+        elif op in (sre_c.MAX_REPEAT, sre_c.MIN_REPEAT):
+            out.append((op, (av[0], av[1], _strip_assertions(list(av[2])))))
+        else:
+            out.append((op, av))
+    return out
